@@ -7,6 +7,8 @@ Definition inc_root_now : bytes -> bytes -> bytes -> bytes :=
   get_root_include_path pico8_cart_paths root_detection_kind.
 Definition resolve_include_now : bytes -> bytes -> (bytes -> bool) -> bytes -> bytes -> result bytes :=
   resolve_include pico8_cart_paths root_detection_kind include_containment_kind.
+Definition include_accesses_now : bytes -> bytes -> (bytes -> bool) -> bytes -> bytes -> list (bool * bytes) * bool :=
+  include_accesses pico8_cart_paths root_detection_kind include_containment_kind.
 (* the variant with plain string-prefix tests (the code before the two `fix:` commits; what a
    revert of them would regenerate) - kept only to state the refutation lemmas *)
 Definition inc_root_prefix : bytes -> bytes -> bytes -> bytes :=
